@@ -121,7 +121,9 @@ class WorldProp(Prop):
         if mr.get("tape_left", 0) != 0:
             return f"model consumed fewer regressions than the implementation ({mr['tape_left']} left)"
         dev = b2f(mr.get("max_dev", 0))
-        if dev > 1e-6:
+        # sanity check of the model's closed-form WLS against numpy (the run itself used numpy's values);
+        # at present-day epoch times doubles carry ~2e-7 s, and the normal equations lose several digits
+        if dev > (1e-6 if abs(req["scenario"].get("start", 0)) < 1e5 else 1e-3):
             return f"closed-form regression differs from numpy by {dev}"
         return None
 
@@ -132,6 +134,34 @@ class WorldProp(Prop):
 
     def nontrivial(self, req, reply):
         return sum(1 for o in reply["obs"] if o[1][0] == "ring") >= 2
+
+
+class PairProp(WorldProp):
+    """Cases are pairs (or tuples) of sessions whose outcomes are compared with each other."""
+
+    def impl(self, req):
+        reps = []
+        mreqs = []
+        for sc in req["scenarios"]:
+            sub = {"scenario": sc, "agents": req.get("agents")}
+            reps.append(WorldProp.impl(self, sub))
+            mreqs.append(sub.pop("_model_req"))
+        req["_model_req"] = {"k": "multi", "reqs": mreqs}
+        return {"runs": reps, "obs": reps[0]["obs"], "crashed": next((r["crashed"] for r in reps if r["crashed"]), None),
+                "handler_crashes": sum((r["handler_crashes"] for r in reps), [])}
+
+    def compare(self, req, ir, mr):
+        if "driver_error" in mr:
+            return "driver_error: " + mr["driver_error"]
+        for i, (a, b) in enumerate(zip(ir["runs"], mr["replies"])):
+            d = WorldProp.compare(self, {"scenario": req["scenarios"][i]}, a, b)
+            if d:
+                return f"run {i}: {d}"
+        return None
+
+    def tag(self, req, reply):
+        sc = req["scenarios"][0]
+        return f"pair:N{sc['tower_size']}:{sc['rhythm']['kind']}"
 
 
 # ---- helpers on replies -------------------------------------------------------------------------
